@@ -418,16 +418,49 @@ def run(ctx):
             if o.get("from") == "for":
                 r = role(o["node"]["iter"], depth - 1)
                 return (r + "[]." + fields[0]) if r and fields else r
+            if o.get("from") == "closure_param":
+                # element of `xs.iter().map(|e| ..)` / for_each
+                src = hirq.element_source(sd, root)
+                r = role(src, depth - 1) if src is not None else None
+                return (r + "[]." + fields[0]) if r and fields else r
             if o.get("from") == "expr" and o["expr"] is not peel(x):
                 return role(o["expr"], depth - 1)
             return None
 
-        pushes = [c for c in sd.calls("Vec::<T, A>::push") if peel(c["a"][0], NO_T).get("k") == "tup" and len(peel(c["a"][0], NO_T)["a"]) == 2]
-        ctx.exact("R20.2", "form pairs pushed by send", len(pushes), 3)
-        vecs = {local_of(c["r"], NO_T) for c in pushes}
+        # the (key, value) pairs the form is built from: `data.push((k, v))`, the elements of `vec![(k, v), ..]` that initialises it,
+        # `data.extend(xs.iter().map(|e| (k, v)))`
+        def is_pair(x):
+            x = peel(x, NO_T)
+            return x.get("k") == "tup" and len(x["a"]) == 2
+        pairs = []   # (pair node, vec local, site)
+        for c in sd.calls("Vec::<T, A>::push"):
+            if is_pair(c["a"][0]):
+                pairs.append((peel(c["a"][0], NO_T), local_of(c["r"], NO_T), c))
+        for let in sd.nodes("let"):
+            init = let.get("init")
+            if init is None or let["pat"].get("k") != "bind" or "Vec<" not in let["pat"].get("ty", ""):
+                continue
+            i0 = init
+            while i0.get("k") in ("ref", "cast"):
+                i0 = i0["e"]
+            if i0.get("k") == "call" and "into_vec" in (i0.get("p") or ""):
+                for arr in hirq.walk(i0):
+                    if arr.get("k") == "array":
+                        for el in arr["a"]:
+                            if is_pair(el):
+                                pairs.append((peel(el, NO_T), let["pat"]["b"], let))
+        for c in sd.calls("Extend::extend"):
+            base_e, chain_e = method_chain(sd, c["a"][0], follow_lets=False)
+            mp = [n for m, n in chain_e if m == "map"]
+            if len(mp) == 1 and all(m in ("iter", "into_iter", "map") for m, _ in chain_e):
+                cl = peel(mp[0]["a"][0], NO_T)
+                if cl.get("k") == "closure" and is_pair(cl["body"]):
+                    pairs.append((peel(cl["body"], NO_T), local_of(c["r"], NO_T), c))
+        ctx.exact("R20.2", "form pairs added by send", len(pairs), 3)
+        vecs = {vb for _, vb, _ in pairs}
         table = {}
-        for i, c in enumerate(pushes):
-            k, v = peel(c["a"][0], NO_T)["a"]
+        for i, (pr, _vb, c) in enumerate(pairs):
+            k, v = pr["a"]
             kv = const_eval(peel(k, NO_T), F)
             vr = role(v)
             kr = role(k) if kv is None else None
